@@ -24,6 +24,7 @@ type groupModel struct {
 	onCommit func(cr *commitRec)
 	onJoinReq func(mg *mgroup, m *mmember, r *sarama.JoinGroupRequest)
 	onHeartbeat func(mg *mgroup, r *sarama.HeartbeatRequest, e sarama.KError)
+	onHeartbeatAns func(client string, r *sarama.HeartbeatRequest, e sarama.KError, c *simConn, corr int32)
 	onState  func(mg *mgroup)
 	onMemberGone func(mg *mgroup, id, why string)
 	onPlan   func(mg *mgroup, rec *genRecord)
